@@ -158,6 +158,15 @@ func (s *MemoryAllocationStore) SaveAllocation(ctx context.Context, alloc Alloca
 		}
 	}
 
+	// A subscriber whose allocation moves to another prefix gives the old one
+	// up: drop its IP index entry, or the old address keeps resolving to this
+	// subscriber and conflicts with whoever is allocated it next
+	if prev, exists := s.byPool[alloc.PoolID][alloc.SubscriberID]; exists {
+		if prevKey := prev.Prefix.IP.String(); prevKey != ipKey {
+			delete(s.byIP, prevKey)
+		}
+	}
+
 	// Update pool index
 	if s.byPool[alloc.PoolID] == nil {
 		s.byPool[alloc.PoolID] = make(map[string]AllocationRecord)
